@@ -7,18 +7,36 @@ Import ListNotations.
 Open Scope string_scope.
 Open Scope list_scope.
 
+Lemma rkey_eqb_refl k : rkey_eqb k k = true.
+Proof. destruct k; simpl; rewrite ?String.eqb_refl, ?Nat.eqb_refl; reflexivity. Qed.
+
+Lemma rkey_eqb_eq a b : rkey_eqb a b = true -> a = b.
+Proof.
+  destruct a, b; simpl; try discriminate; intros H.
+  - apply andb_true_iff in H as [H1 H2]. apply String.eqb_eq in H1. apply Nat.eqb_eq in H2. subst. reflexivity.
+  - apply andb_true_iff in H as [H H3]. apply andb_true_iff in H as [H1 H2].
+    apply String.eqb_eq in H1. apply Nat.eqb_eq in H2. apply String.eqb_eq in H3. subst. reflexivity.
+Qed.
+
+Lemma rkey_eqb_sym a b : rkey_eqb a b = rkey_eqb b a.
+Proof.
+  destruct a, b; simpl; try reflexivity;
+    rewrite ?(String.eqb_sym u u0), ?(String.eqb_sym owner owner0), ?(Nat.eqb_sym o o0), ?(Nat.eqb_sym oo oo0);
+    reflexivity.
+Qed.
+
 Section Cache.
   Variable W : world.
   Variable fails : fails_t.
 
-  Definition keys (c : cache) : list string := map fst c.
-  Definition cache_ok (c : cache) : Prop := forall u v, cfind c u = Some v -> v = img_ok W fails u.
+  Definition keys (c : cache) : list rkey := map fst c.
+  Definition cache_ok (c : cache) : Prop := forall k v, cfind c k = Some v -> v = key_ok W fails k.
 
   (* the URLs seen after filtering l *)
-  Fixpoint cf_seen (seen : list string) (l : list ev) : list string :=
+  Fixpoint cf_seen (seen : list rkey) (l : list ev) : list rkey :=
     match l with
     | [] => seen
-    | Req u :: r => if existsb (String.eqb u) seen then cf_seen seen r else cf_seen (u :: seen) r
+    | Req u :: r => if existsb (rkey_eqb u) seen then cf_seen seen r else cf_seen (u :: seen) r
     | _ :: r => cf_seen seen r
     end.
 
@@ -29,7 +47,7 @@ Section Cache.
   Proof.
     induction l1 as [|e l1 IH]; intros seen l2; [reflexivity|].
     destruct e as [ch u|u|lv u|x]; simpl; try (rewrite IH; reflexivity).
-    destruct (existsb (String.eqb u) seen); [apply IH|].
+    destruct (existsb (rkey_eqb u) seen); [apply IH|].
     rewrite IH. simpl. rewrite app_assoc. reflexivity.
   Qed.
 
@@ -37,53 +55,53 @@ Section Cache.
   Proof.
     induction l1 as [|e l1 IH]; intros seen l2; [reflexivity|].
     destruct e as [ch u|u|lv u|x]; simpl; try apply IH.
-    destruct (existsb (String.eqb u) seen); apply IH.
+    destruct (existsb (rkey_eqb u) seen); apply IH.
   Qed.
 
   Lemma cf_seen_incl l : forall seen, incl seen (cf_seen seen l).
   Proof.
     induction l as [|e l IH]; intros seen; [apply incl_refl|].
     destruct e as [ch u|u|lv u|x]; simpl; try apply IH.
-    destruct (existsb (String.eqb u) seen); [apply IH|].
+    destruct (existsb (rkey_eqb u) seen); [apply IH|].
     intros x Hx. apply IH. right. exact Hx.
   Qed.
 
-  Lemma existsb_eqb_in u l : existsb (String.eqb u) l = true <-> In u l.
+  Lemma existsb_eqb_in u l : existsb (rkey_eqb u) l = true <-> In u l.
   Proof.
     rewrite existsb_exists. split.
-    - intros [x [Hx E]]. apply String.eqb_eq in E. subst. exact Hx.
-    - intros H. exists u. split; [exact H|apply String.eqb_refl].
+    - intros [x [Hx E]]. apply rkey_eqb_eq in E. subst. exact Hx.
+    - intros H. exists u. split; [exact H|apply rkey_eqb_refl].
   Qed.
 
   Lemma cf_seen_req l : forall seen u, In (Req u) l -> In u (cf_seen seen l).
   Proof.
     induction l as [|e l IH]; intros seen u H; [destruct H|].
     destruct H as [H|H].
-    - subst e. simpl. destruct (existsb (String.eqb u) seen) eqn:E.
+    - subst e. simpl. destruct (existsb (rkey_eqb u) seen) eqn:E.
       + apply cf_seen_incl. apply existsb_eqb_in. exact E.
       + apply cf_seen_incl. left. reflexivity.
     - destruct e as [ch v|v|lv v|x]; simpl; try (apply IH; exact H).
-      destruct (existsb (String.eqb v) seen); apply IH; exact H.
+      destruct (existsb (rkey_eqb v) seen); apply IH; exact H.
   Qed.
 
-  Lemma cfind_none c u : cfind c u = None -> existsb (String.eqb u) (keys c) = false.
+  Lemma cfind_none c u : cfind c u = None -> existsb (rkey_eqb u) (keys c) = false.
   Proof.
     induction c as [|[k v] c IH]; simpl; [reflexivity|].
-    rewrite (String.eqb_sym u k). destruct (k =? u); [discriminate|]. exact IH.
+    rewrite (rkey_eqb_sym u k). destruct (rkey_eqb k u); [discriminate|]. exact IH.
   Qed.
 
-  Lemma cfind_some c u v : cfind c u = Some v -> existsb (String.eqb u) (keys c) = true.
+  Lemma cfind_some c u v : cfind c u = Some v -> existsb (rkey_eqb u) (keys c) = true.
   Proof.
     induction c as [|[k v'] c IH]; simpl; [discriminate|].
-    rewrite (String.eqb_sym u k). destruct (k =? u); [reflexivity|]. exact IH.
+    rewrite (rkey_eqb_sym u k). destruct (rkey_eqb k u); [reflexivity|]. exact IH.
   Qed.
 
   Lemma in_keys_cfind c u : In u (keys c) -> exists v, cfind c u = Some v.
   Proof.
     induction c as [|[k v'] c IH]; simpl; [intros []|].
     intros [E|H].
-    - subst k. rewrite String.eqb_refl. eauto.
-    - destruct (k =? u); [eauto|apply IH; exact H].
+    - subst k. rewrite rkey_eqb_refl. eauto.
+    - destruct (rkey_eqb k u); [eauto|apply IH; exact H].
   Qed.
 
   (* the relation between a machine step from cache c and the stateless events l *)
@@ -115,29 +133,30 @@ Section Cache.
       exfalso. apply (Hn u). left. reflexivity.
   Qed.
 
-  Lemma m_get_spec c u : cache_ok c ->
-    R c (fst (fst (m_get W fails c u)), snd (m_get W fails c u)) [Req u] /\
-    snd (fst (m_get W fails c u)) = img_ok W fails u.
+  Lemma m_get_spec c k : cache_ok c ->
+    R c (fst (fst (m_get W fails c k)), snd (m_get W fails c k)) [Req k] /\
+    snd (fst (m_get W fails c k)) = key_ok W fails k.
   Proof.
-    intros Hc. unfold m_get. destruct (cfind c u) as [v|] eqn:E.
+    intros Hc. unfold m_get. destruct (cfind c k) as [v|] eqn:E.
     - simpl. split; [|apply Hc; exact E].
       repeat split; simpl; try rewrite (cfind_some _ _ _ E); auto.
     - simpl. split; [|reflexivity].
       repeat split; simpl; try rewrite (cfind_none _ _ E); auto.
       + rewrite app_nil_r. reflexivity.
-      + intros x v. simpl. destruct (u =? x) eqn:Ex.
-        * apply String.eqb_eq in Ex. subst x. intros H. inversion H. reflexivity.
+      + intros x v. simpl. destruct (rkey_eqb k x) eqn:Ex.
+        * apply rkey_eqb_eq in Ex. subst x. intros H. inversion H. reflexivity.
         * apply Hc.
   Qed.
 
   Lemma m_req_spec c q : cache_ok c -> R c (m_req W fails c q) (sem_req W fails q).
   Proof.
-    intros Hc. destruct q as [[[k id] a] al]. destruct a as [a|]; simpl.
-    - destruct (m_get_spec c (fetched_string a) Hc) as [HR Hok].
-      destruct (m_get W fails c (fetched_string a)) as [[c1 ok] e] eqn:E. simpl in HR, Hok. subst ok.
-      change [Req (fetched_string a);
+    intros Hc. destruct q as [[[[k id] a] al] o]. destruct a as [a|]; simpl.
+    - destruct (m_get_spec c (RkImg (fetched_string a) o) Hc) as [HR Hok].
+      destruct (m_get W fails c (RkImg (fetched_string a) o)) as [[c1 ok] e] eqn:E. simpl in HR, Hok. subst ok.
+      simpl key_ok.
+      change [Req (RkImg (fetched_string a) o);
               Eff (EShown id (if img_ok W fails (fetched_string a) then ShImage else shown_absent k al))]
-        with ([Req (fetched_string a)] ++
+        with ([Req (RkImg (fetched_string a) o)] ++
               [Eff (EShown id (if img_ok W fails (fetched_string a) then ShImage else shown_absent k al))]).
       eapply R_app; [exact HR|]. apply R_silent; [apply HR|].
       intros v [H|[]]. discriminate.
@@ -156,15 +175,16 @@ Section Cache.
     eapply R_app; eassumption.
   Qed.
 
-  Lemma m_kids_spec mrec srec b :
+  Lemma m_kids_spec mrec srec owner oo b :
     (forall c u, cache_ok c -> R c (mrec c u) (srec u)) ->
     forall kids c, cache_ok c ->
-      R c (m_kids W fails mrec b c kids) (sem_kids W fails srec b kids).
+      R c (m_kids W fails mrec owner oo b c kids) (sem_kids W fails srec owner oo b kids).
   Proof.
     intros Hrec. induction kids as [|v kids IH]; intros c Hc; simpl; [apply R_nil; exact Hc|].
     destruct v as [rf|rf]; destruct (url_join b rf true) as [a|]; try (apply IH; exact Hc).
-    - destruct (m_get_spec c (fetched_string a) Hc) as [HR Hok].
-      destruct (m_get W fails c (fetched_string a)) as [[c1 ok] e1] eqn:E. simpl in HR, Hok. subst ok.
+    - destruct (m_get_spec c (RkImg (fetched_string a) 0) Hc) as [HR Hok].
+      destruct (m_get W fails c (RkImg (fetched_string a) 0)) as [[c1 ok] e1] eqn:E. simpl in HR, Hok. subst ok.
+      simpl key_ok.
       assert (Hc1 : cache_ok c1) by apply HR.
       assert (H2 : exists c2 e2,
                  (if img_ok W fails (fetched_string a) then mrec c1 (fetched_string a) else (c1, [])) = (c2, e2) /\
@@ -176,51 +196,55 @@ Section Cache.
       destruct H2 as [c2 [e2 [E2 HR2]]]. rewrite E2.
       assert (Hc2 : cache_ok c2) by apply HR2.
       pose proof (IH c2 Hc2) as H3.
-      destruct (m_kids W fails mrec b c2 kids) as [c3 e3].
-      change (Req (fetched_string a)
+      destruct (m_kids W fails mrec owner oo b c2 kids) as [c3 e3].
+      change (Req (RkImg (fetched_string a) 0)
               :: (if img_ok W fails (fetched_string a) then srec (fetched_string a) else [])
-                 ++ sem_kids W fails srec b kids)
-        with ([Req (fetched_string a)]
+                 ++ sem_kids W fails srec owner oo b kids)
+        with ([Req (RkImg (fetched_string a) 0)]
               ++ (if img_ok W fails (fetched_string a) then srec (fetched_string a) else [])
-                 ++ sem_kids W fails srec b kids).
+                 ++ sem_kids W fails srec owner oo b kids).
       eapply R_app; [exact HR|]. eapply R_app; eassumption.
-    - pose proof (IH c Hc) as H. destruct (m_kids W fails mrec b c kids) as [c1 e1].
-      change (Fetch ChUse (fetched_string a) :: e1) with ([Fetch ChUse (fetched_string a)] ++ e1).
-      change (Fetch ChUse (fetched_string a) :: sem_kids W fails srec b kids)
-        with ([Fetch ChUse (fetched_string a)] ++ sem_kids W fails srec b kids).
-      eapply R_app; [|exact H]. apply R_silent; [exact Hc|]. intros v [Hv|[]]. discriminate.
+    - destruct (m_get_spec c (RkUse owner oo (fetched_string a)) Hc) as [HR _].
+      destruct (m_get W fails c (RkUse owner oo (fetched_string a))) as [[c1 ok] e1] eqn:E. simpl in HR.
+      assert (Hc1 : cache_ok c1) by apply HR.
+      pose proof (IH c1 Hc1) as H. destruct (m_kids W fails mrec owner oo b c1 kids) as [c2 e2].
+      change (Req (RkUse owner oo (fetched_string a)) :: sem_kids W fails srec owner oo b kids)
+        with ([Req (RkUse owner oo (fetched_string a))] ++ sem_kids W fails srec owner oo b kids).
+      eapply R_app; eassumption.
   Qed.
 
-  Lemma m_draw_spec w : forall c u, cache_ok c -> R c (m_draw W fails w c u) (sem_draw W fails w u).
+  Lemma m_draw_spec w : forall c u o, cache_ok c -> R c (m_draw W fails w c u o) (sem_draw W fails w u o).
   Proof.
-    induction w as [|[k ct] w IH]; intros c u Hc; simpl; [apply R_nil; exact Hc|].
+    induction w as [|[k ct] w IH]; intros c u o Hc; simpl; [apply R_nil; exact Hc|].
     destruct (fetched_string k =? u); [|apply IH; exact Hc].
     destruct ct; try (apply R_nil; exact Hc).
     - apply R_silent; [exact Hc|]. intros v [Hv|[]]. discriminate.
-    - apply m_kids_spec; [exact IH|exact Hc].
+    - apply (m_kids_spec (fun c' v => m_draw W fails w c' v 0) (fun v => sem_draw W fails w v 0));
+        [intros c' v Hc'; apply IH; exact Hc'|exact Hc].
   Qed.
 
-  Definition req_url (q : img_req) : option string :=
-    let '(_, _, a, _) := q in option_map fetched_string a.
+  Definition req_key (q : img_req) : option rkey :=
+    let '(_, _, a, _, o) := q in option_map (fun a => RkImg (fetched_string a) o) a.
 
   Lemma m_draw_req_spec c q : cache_ok c ->
-    (forall u, req_url q = Some u -> In u (keys c)) ->
+    (forall k, req_key q = Some k -> In k (keys c)) ->
     R c (m_draw_req W fails c q) (sem_draw_req W fails q).
   Proof.
-    intros Hc Hin. destruct q as [[[k id] a] al]. destruct a as [a|]; simpl; [|apply R_nil; exact Hc].
-    destruct (in_keys_cfind c (fetched_string a) (Hin _ eq_refl)) as [v Hv].
-    rewrite Hv. rewrite <- (Hc _ _ Hv). destruct v; [apply m_draw_spec; exact Hc|apply R_nil; exact Hc].
+    intros Hc Hin. destruct q as [[[[k id] a] al] o]. destruct a as [a|]; simpl; [|apply R_nil; exact Hc].
+    destruct (in_keys_cfind c (RkImg (fetched_string a) o) (Hin _ eq_refl)) as [v Hv].
+    rewrite Hv. pose proof (Hc _ _ Hv) as Hk. simpl in Hk. rewrite <- Hk.
+    destruct v; [apply m_draw_spec; exact Hc|apply R_nil; exact Hc].
   Qed.
 
   Lemma m_draws_spec qs : forall c, cache_ok c ->
-    (forall q u, In q qs -> req_url q = Some u -> In u (keys c)) ->
+    (forall q k, In q qs -> req_key q = Some k -> In k (keys c)) ->
     R c (m_draws W fails c qs) (flat_map (sem_draw_req W fails) qs).
   Proof.
     induction qs as [|q qs IH]; intros c Hc Hin; simpl; [apply R_nil; exact Hc|].
     pose proof (m_draw_req_spec c q Hc (fun u => Hin q u (or_introl eq_refl))) as H1.
     destruct (m_draw_req W fails c q) as [c1 e1].
     assert (Hc1 : cache_ok c1) by apply H1.
-    assert (Hin1 : forall q' u, In q' qs -> req_url q' = Some u -> In u (keys c1)).
+    assert (Hin1 : forall q' u, In q' qs -> req_key q' = Some u -> In u (keys c1)).
     { intros q' u Hq Hu. destruct H1 as [_ [Hk _]]. simpl in Hk. rewrite Hk.
       apply cf_seen_incl. eapply Hin; [right; exact Hq|exact Hu]. }
     pose proof (IH c1 Hc1 Hin1) as H2.
@@ -228,9 +252,9 @@ Section Cache.
     eapply R_app; eassumption.
   Qed.
 
-  Lemma sem_req_has_req q u : req_url q = Some u -> In (Req u) (sem_req W fails q).
+  Lemma sem_req_has_req q k : req_key q = Some k -> In (Req k) (sem_req W fails q).
   Proof.
-    destruct q as [[[k id] a] al]. destruct a as [a|]; simpl; [|discriminate].
+    destruct q as [[[[ki id] a] al] o]. destruct a as [a|]; simpl; [|discriminate].
     intros H. inversion H. left. reflexivity.
   Qed.
 
@@ -257,8 +281,8 @@ Definition refs_item (i : item) : list ref :=
   match i with
   | ILink r => [r]
   | IStyle items => flat_map refs_sitem items
-  | IImage _ _ (Some r) _ => [r]
-  | IImage _ _ None _ => []
+  | IImage _ _ (Some r) _ _ => [r]
+  | IImage _ _ None _ _ => []
   | IAttach _ _ r => [r]
   | INoFetch _ => []
   end.
@@ -271,7 +295,7 @@ Section Generic.
   Variable okjoin : option base -> ref -> Prop.
   Hypothesis HL : forall lv u, P (Log lv u).
   Hypothesis HE : forall x, P (Eff x).
-  Hypothesis HF : forall ch u, ch <> ChImage -> okurl u -> P (Fetch ch u).
+  Hypothesis HF : forall ch u, ch <> ChImage -> ch <> ChUse -> okurl u -> P (Fetch ch u).
   Hypothesis Hjoin : forall b r allow a, okjoin b r -> url_join b r allow = Some a ->
                                          okurl (fetched_string a).
 
@@ -286,9 +310,9 @@ Section Generic.
     inversion Hr as [|x y Hx Hy]; subst.
     destruct (url_join b rf false) as [a|] eqn:E.
     - destruct (font_ok W fails (fetched_string a)).
-      + simpl. constructor; [|constructor]. apply HF; [discriminate|eapply Hjoin; eassumption].
+      + simpl. constructor; [|constructor]. apply HF; [discriminate|discriminate|eapply Hjoin; eassumption].
       + specialize (IH Hy). destruct (font_srcs W fails b r) as [e ok]. simpl in *.
-        constructor; [apply HF; [discriminate|eapply Hjoin; eassumption]|].
+        constructor; [apply HF; [discriminate|discriminate|eapply Hjoin; eassumption]|].
         constructor; [apply HL|exact IH].
     - specialize (IH Hy). destruct (font_srcs W fails b r) as [e ok]. simpl in *.
       constructor; [apply HL|exact IH].
@@ -338,16 +362,16 @@ Section Generic.
     Forall P (fst (load_sheet W fails w link a)).
   Proof.
     induction w as [|[k c] w IH]; intros Hw link a Ha; simpl.
-    - constructor; [apply HF; [discriminate|exact Ha]|]. constructor; [apply HL|constructor].
+    - constructor; [apply HF; [discriminate|discriminate|exact Ha]|]. constructor; [apply HL|constructor].
     - inversion Hw as [|x y Hc Hw']; subst. simpl in Hc.
       destruct (fetched_string k =? fetched_string a); [|apply IH; assumption].
       destruct (fails (fetched_string a)) as [m|].
-      + simpl. constructor; [apply HF; [discriminate|exact Ha]|apply sheet_fail_log_P].
-      + destruct c; try (simpl; constructor; [apply HF; [discriminate|exact Ha]|constructor; [apply HL|constructor]]).
+      + simpl. constructor; [apply HF; [discriminate|discriminate|exact Ha]|apply sheet_fail_log_P].
+      + destruct c; try (simpl; constructor; [apply HF; [discriminate|discriminate|exact Ha]|constructor; [apply HL|constructor]]).
         pose proof (run_items_P (load_sheet W fails w false) (base_of k)
                       (fun a' Ha' => IH Hw' false a' Ha') items false Hc) as H.
         destruct (run_items W fails (load_sheet W fails w false) (base_of k) false items) as [e i].
-        simpl in *. constructor; [apply HF; [discriminate|exact Ha]|exact H].
+        simpl in *. constructor; [apply HF; [discriminate|discriminate|exact Ha]|exact H].
   Qed.
 
   Lemma sheets_of_P b : wf_world W ->
@@ -355,7 +379,7 @@ Section Generic.
   Proof.
     intros Hw. induction items as [|it r IH]; intros Hr; simpl; [constructor|].
     simpl in Hr. apply Forall_app in Hr as [Hs Hr]. specialize (IH Hr).
-    destruct it as [rf|its|k id rf al|k id rf|rf]; try exact IH.
+    destruct it as [rf|its|k id rf al o|k id rf|rf]; try exact IH.
     - destruct (sheets_of W fails b r) as [e2 i2]. simpl in IH.
       assert (H1 : Forall P (fst (match url_join b rf false with
                                   | None => ([Log LError (show_ref rf)], [])
@@ -422,7 +446,7 @@ Section Generic.
   Proof.
     intros Hw. induction items as [|it r IH]; intros Hr; simpl; [constructor|].
     simpl in Hr. apply Forall_app in Hr as [Hs Hr]. specialize (IH Hr).
-    destruct it as [rf|its|k id rf al|k id rf|rf]; try exact IH.
+    destruct it as [rf|its|k id rf al o|k id rf|rf]; try exact IH.
     - destruct (sheets_of W fails b r) as [e2 i2]. simpl in IH.
       assert (H1 : Forall cssimg_ok (snd (match url_join b rf false with
                                   | None => ([Log LError (show_ref rf)], [])
@@ -444,70 +468,78 @@ Section Generic.
   Proof.
     induction items as [|it r IH]; intros seen Hr; simpl; [constructor|].
     simpl in Hr. apply Forall_app in Hr as [Hs Hr].
-    destruct it as [rf|its|k id rf al|k id rf|rf]; try (apply IH; exact Hr).
+    destruct it as [rf|its|k id rf al o|k id rf|rf]; try (apply IH; exact Hr).
     destruct (Bool.eqb match k with AAnchor => true | _ => false end anchors); [|apply IH; exact Hr].
     destruct (url_join b rf (if anchors then true else false)) as [a|] eqn:E.
     - destruct (anchors && existsb (String.eqb (fetched_string a)) seen); [apply IH; exact Hr|].
       unfold attach_one. simpl. constructor.
-      + apply HF; [discriminate|]. eapply Hjoin; [|exact E]. inversion Hs; assumption.
+      + apply HF; [discriminate|discriminate|]. eapply Hjoin; [|exact E]. inversion Hs; assumption.
       + apply Forall_app. split; [|apply IH; exact Hr].
         destruct (att_ok W fails (fetched_string a)); constructor; try constructor; [apply HE|apply HL].
     - constructor; [apply HL|apply IH; exact Hr].
   Qed.
 
   (* the image part also emits requests *)
-  Hypothesis HR : forall u, okurl u -> P (Req u).
+  Hypothesis HR : forall k, okurl (key_url k) -> P (Req k).
 
   Lemma image_items_ok b : forall items, Forall (okjoin b) (flat_map refs_item items) ->
-    Forall (fun q => forall u, req_url q = Some u -> okurl u) (image_items b items).
+    Forall (fun q => forall k, req_key q = Some k -> okurl (key_url k)) (image_items b items).
   Proof.
     induction items as [|it r IH]; intros Hr; simpl; [constructor|].
     simpl in Hr. apply Forall_app in Hr as [Hs Hr].
-    destruct it as [rf|its|k id rf al|k id rf|rf]; try (apply IH; exact Hr).
+    destruct it as [rf|its|k id rf al o|k id rf|rf]; try (apply IH; exact Hr).
     constructor; [|apply IH; exact Hr].
     intros u. simpl. destruct rf as [rf|]; [|discriminate].
     destruct (url_join b rf false) as [a|] eqn:E; [|discriminate].
-    simpl. intros H. inversion H; subst. eapply Hjoin; [|exact E]. inversion Hs; assumption.
+    simpl. intros H. inversion H; subst. simpl. eapply Hjoin; [|exact E]. inversion Hs; assumption.
   Qed.
 
-  Lemma sem_req_P q : (forall u, req_url q = Some u -> okurl u) -> Forall P (sem_req W fails q).
+  Lemma sem_req_P q : (forall k, req_key q = Some k -> okurl (key_url k)) -> Forall P (sem_req W fails q).
   Proof.
-    destruct q as [[[k id] a] al]. intros H. destruct a as [a|]; simpl.
-    - constructor; [apply HR; apply H; reflexivity|]. constructor; [apply HE|constructor].
+    destruct q as [[[[k id] a] al] o]. intros H. destruct a as [a|]; simpl.
+    - constructor; [apply HR; apply (H _ eq_refl)|]. constructor; [apply HE|constructor].
     - constructor; [apply HE|constructor].
   Qed.
 
-  Lemma sem_kids_P rec b : (forall u, Forall P (rec u)) ->
-    forall kids, Forall (okjoin b) (flat_map refs_vref kids) -> Forall P (sem_kids W fails rec b kids).
+  Lemma sem_kids_P rec owner oo b : (forall u, Forall P (rec u)) ->
+    forall kids, Forall (okjoin b) (flat_map refs_vref kids) -> Forall P (sem_kids W fails rec owner oo b kids).
   Proof.
     intros Hrec. induction kids as [|v r IH]; intros Hr; simpl; [constructor|].
     simpl in Hr. apply Forall_app in Hr as [Hs Hr]. specialize (IH Hr).
     destruct v as [rf|rf]; destruct (url_join b rf true) as [a|] eqn:E; try exact IH.
-    - constructor; [apply HR; eapply Hjoin; [|exact E]; inversion Hs; assumption|].
+    - constructor; [apply HR; simpl; eapply Hjoin; [|exact E]; inversion Hs; assumption|].
       apply Forall_app. split; [|exact IH]. destruct (img_ok W fails (fetched_string a)); [apply Hrec|constructor].
-    - constructor; [|exact IH]. apply HF; [discriminate|].
+    - constructor; [|exact IH]. apply HR. simpl.
       eapply Hjoin; [|exact E]. inversion Hs; assumption.
   Qed.
 
-  Lemma sem_draw_P w : wf_world w -> forall u, Forall P (sem_draw W fails w u).
+  Lemma sem_draw_P w : wf_world w -> forall u o, Forall P (sem_draw W fails w u o).
   Proof.
-    induction w as [|[k c] w IH]; intros Hw u; simpl; [constructor|].
+    induction w as [|[k c] w IH]; intros Hw u o; simpl; [constructor|].
     inversion Hw as [|x y Hc Hw']; subst. simpl in Hc.
     destruct (fetched_string k =? u); [|apply IH; exact Hw'].
     destruct c; try constructor; try apply HE; try constructor.
-    apply sem_kids_P; [apply IH; exact Hw'|exact Hc].
+    apply sem_kids_P; [intros v; apply IH; exact Hw'|exact Hc].
   Qed.
 
   Lemma sem_draw_req_P q : wf_world W -> Forall P (sem_draw_req W fails q).
   Proof.
-    intros Hw. destruct q as [[[k id] a] al]. destruct a as [a|]; simpl; [|constructor].
+    intros Hw. destruct q as [[[[k id] a] al] o]. destruct a as [a|]; simpl; [|constructor].
     destruct (img_ok W fails (fetched_string a)); [apply sem_draw_P; exact Hw|constructor].
   Qed.
 End Generic.
 
 (* ---- instances of the generic invariant, and the theorems about fetches *)
 Definition not_req (e : ev) : Prop := match e with Req _ => False | _ => True end.
-Definition not_imgfetch (e : ev) : Prop := match e with Fetch ChImage _ => False | _ => True end.
+Definition not_imgfetch (e : ev) : Prop :=
+  match e with Fetch ChImage _ | Fetch ChUse _ => False | _ => True end.
+(* the fetches that go through a cache (images, external <use>), with their channel *)
+Definition keyed_fetches (l : list ev) : list (channel * string) :=
+  flat_map (fun e => match e with
+                     | Fetch ChImage u => [(ChImage, u)]
+                     | Fetch ChUse u => [(ChUse, u)]
+                     | _ => [] end) l.
+Definition key_fetch (k : rkey) : channel * string := (key_ch k, key_url k).
 Definition any_string (_ : string) : Prop := True.
 Definition any_join (_ : option base) (_ : ref) : Prop := True.
 
@@ -526,7 +558,7 @@ Lemma dedup_spec l : forall seen,
 Proof.
   induction l as [|u r IH]; intros seen; simpl.
   - split; [constructor|split; [intros x []|intros x []]].
-  - destruct (existsb (String.eqb u) seen) eqn:E.
+  - destruct (existsb (rkey_eqb u) seen) eqn:E.
     + destruct (IH seen) as [H1 [H2 H3]]. repeat split; auto.
       * apply H2; assumption.
       * right. apply (H2 x); assumption.
@@ -579,7 +611,7 @@ Section Results.
     pose proof (m_reqs_spec W fails qs c0 Hc) as H1.
     destruct (m_reqs W fails c0 qs) as [c1 e1].
     assert (Hc1 : cache_ok W fails c1) by apply H1.
-    assert (Hin : forall q u, In q qs -> req_url q = Some u -> In u (keys c1)).
+    assert (Hin : forall q u, In q qs -> req_key q = Some u -> In u (keys c1)).
     { intros q u Hq Hu. destruct H1 as [_ [Hk _]]. simpl in Hk. rewrite Hk.
       apply cf_seen_req. apply in_flat_map. exists q. split; [exact Hq|apply sem_req_has_req; exact Hu]. }
     pose proof (m_draws_spec W fails qs c1 Hc1 Hin) as H2.
@@ -599,48 +631,49 @@ Section Results.
   Proof.
     induction l as [|e l IH]; intros seen; [reflexivity|].
     destruct e as [ch u|u|lv u|x]; simpl; try apply IH; try (rewrite IH; reflexivity).
-    destruct (existsb (String.eqb u) seen); [apply IH|].
+    destruct (existsb (rkey_eqb u) seen); [apply IH|].
     unfold effects in *. simpl. rewrite flat_map_app.
     replace (flat_map (fun e : ev => match e with Eff x => [x] | _ => [] end)
-               (if img_ok W fails u then [] else [Log LError u])) with (@nil effect)
-      by (destruct (img_ok W fails u); reflexivity).
+               (if key_ok W fails u then [] else [Log LError (key_url u)])) with (@nil effect)
+      by (destruct (key_ok W fails u); reflexivity).
     apply IH.
   Qed.
 
   Lemma cfilter_fetches l : forall seen,
-    Permutation (fetches (cfilter seen l)) (fetches l ++ dedup seen (requests l)).
+    Permutation (fetches (cfilter seen l)) (fetches l ++ map key_url (dedup seen (requests l))).
   Proof.
     induction l as [|e l IH]; intros seen; [constructor|].
     destruct e as [ch u|u|lv u|x]; simpl; try apply IH.
     - constructor. apply IH.
-    - destruct (existsb (String.eqb u) seen); [apply IH|].
+    - destruct (existsb (rkey_eqb u) seen); [apply IH|].
       unfold fetches at 1. simpl. rewrite flat_map_app.
       replace (flat_map (fun e : ev => match e with Fetch _ u0 => [u0] | _ => [] end)
-                 (if img_ok W fails u then [] else [Log LError u])) with (@nil string)
-        by (destruct (img_ok W fails u); reflexivity).
+                 (if key_ok W fails u then [] else [Log LError (key_url u)])) with (@nil string)
+        by (destruct (key_ok W fails u); reflexivity).
       simpl. apply Permutation_cons_app. apply IH.
   Qed.
 
-  Lemma cfilter_image_fetches l : Forall not_imgfetch l ->
-    forall seen, fetches_on ChImage (cfilter seen l) = dedup seen (requests l).
+  Lemma cfilter_keyed_fetches l : Forall not_imgfetch l ->
+    forall seen, keyed_fetches (cfilter seen l) = map key_fetch (dedup seen (requests l)).
   Proof.
     induction l as [|e l IH]; intros Hl seen; [reflexivity|].
     inversion Hl as [|x y Hx Hy]; subst.
     destruct e as [ch u|u|lv u|x]; simpl; try (apply IH; exact Hy).
     - destruct ch; simpl in Hx; try contradiction; apply IH; exact Hy.
-    - destruct (existsb (String.eqb u) seen); [apply IH; exact Hy|].
-      unfold fetches_on at 1. simpl. rewrite flat_map_app.
-      replace (flat_map _ (if img_ok W fails u then [] else [Log LError u])) with (@nil string)
-        by (destruct (img_ok W fails u); reflexivity).
-      simpl. f_equal. apply IH. exact Hy.
+    - destruct (existsb (rkey_eqb u) seen); [apply IH; exact Hy|].
+      unfold keyed_fetches at 1. simpl. rewrite flat_map_app.
+      replace (flat_map _ (if key_ok W fails u then [] else [Log LError (key_url u)])) with (@nil (channel * string))
+        by (destruct (key_ok W fails u); reflexivity).
+      fold (keyed_fetches (cfilter (u :: seen) l)). rewrite (IH Hy).
+      destruct u; reflexivity.
   Qed.
 
   Lemma sem_doc_not_imgfetch d : Forall not_imgfetch (sem_doc W fails d).
   Proof.
     unfold sem_doc.
     pose proof (sheets_of_P W fails not_imgfetch any_string any_join) as Hs.
-    assert (HF : forall ch u, ch <> ChImage -> any_string u -> not_imgfetch (Fetch ch u)).
-    { intros ch u Hch _. destruct ch; simpl; auto. }
+    assert (HF : forall ch u, ch <> ChImage -> ch <> ChUse -> any_string u -> not_imgfetch (Fetch ch u)).
+    { intros ch u Hch Hch' _. destruct ch; simpl; auto. }
     specialize (Hs (fun _ _ => I) (fun _ => I) HF (fun _ _ _ _ _ _ => I)
                    (d_base d) (wf_world_any W) (d_items d) (Forall_any _ _ (fun _ => I))).
     destruct (sheets_of W fails (d_base d) (d_items d)) as [es ci]. simpl in Hs.
@@ -653,7 +686,7 @@ Section Results.
     apply Forall_app. split.
     { apply Forall_forall. intros e He. apply in_flat_map in He as [q [_ He]].
       pose proof (sem_draw_req_P W fails not_imgfetch any_string any_join
-                    (fun _ => I) HF (fun _ _ _ _ _ _ => I) (fun _ _ => I)
+                    (fun _ => I) (fun _ _ _ _ _ _ => I) (fun _ _ => I)
                     q (wf_world_any W)) as Hq.
       rewrite Forall_forall in Hq. exact (Hq _ He). }
     apply Forall_app. split;
@@ -661,25 +694,26 @@ Section Results.
       try (intros; exact I); apply Forall_any; intros; exact I.
   Qed.
 
-  (* each image URL is fetched at most once per render, never when the cache already holds it, and every
-     URL an image position requests is either cached or fetched *)
+  (* each cached request - an image URL with its orientation, an external <use> of a loaded SVG image - is
+     fetched at most once per render, never when the cache already holds it, and every such request of the
+     document is either cached or fetched: the cached fetches are exactly the first occurrences *)
   Theorem image_fetched_once c0 d : cache_ok W fails c0 ->
-    let fs := fetches_on ChImage (snd (m_doc W fails c0 d)) in
-    NoDup fs /\
-    (forall u, In u fs -> ~ In u (keys c0) /\ In u (requests (sem_doc W fails d))) /\
-    (forall u, In u (requests (sem_doc W fails d)) -> In u (keys c0) \/ In u fs).
+    let ks := dedup (keys c0) (requests (sem_doc W fails d)) in
+    keyed_fetches (snd (m_doc W fails c0 d)) = map key_fetch ks /\
+    NoDup ks /\
+    (forall k, In k ks -> ~ In k (keys c0) /\ In k (requests (sem_doc W fails d))) /\
+    (forall k, In k (requests (sem_doc W fails d)) -> In k (keys c0) \/ In k ks).
   Proof.
-    intros Hc fs. unfold fs.
+    intros Hc ks. unfold ks.
     destruct (machine_is_filtered_semantics c0 d Hc) as [E _]. rewrite E.
-    rewrite (cfilter_image_fetches _ (sem_doc_not_imgfetch d)).
-    apply dedup_spec.
+    split; [apply (cfilter_keyed_fetches _ (sem_doc_not_imgfetch d))|apply dedup_spec].
   Qed.
 
   (* the multiset of fetches of a render: the non-image fetches of the stateless semantics plus the first
      occurrence of each requested image URL *)
   Theorem expected_fetches d :
     Permutation (fetches (snd (m_doc W fails [] d)))
-                (fetches (sem_doc W fails d) ++ dedup [] (requests (sem_doc W fails d))).
+                (fetches (sem_doc W fails d) ++ map key_url (dedup [] (requests (sem_doc W fails d)))).
   Proof.
     assert (Hc : cache_ok W fails []) by (intros u v H; discriminate).
     destruct (machine_is_filtered_semantics [] d Hc) as [E _]. rewrite E. apply cfilter_fetches.
